@@ -613,3 +613,120 @@ def fam_lacon(g, prop, count, types):
             lst.append({"id": "%s-lacon-%05d-%s" % (prop, i, ty), "lines": lines, "n": n})
         out[ty] = lst
     return out
+
+
+# ----------------------------------------------------------------------------- C10
+def fam_order(g, prop, count, types=None, nmax=7, exhaustive3=False):
+    """get_perm_c + sp_preorder, getata, at_plus_a on many patterns; each ordering call is repeated with other values
+    on the same pattern (orderings depend on the pattern only); SymmetricMode on/off; reuse (Fact != DOFACT)"""
+    r = g.r
+    lst = []
+    pats = []
+    if exhaustive3:
+        for bits in range(512):
+            pats.append((3, 3, {(i, j) for i in range(3) for j in range(3) if bits >> (3 * i + j) & 1}))
+    for i in range(count):
+        m = r.randint(1, nmax); n = r.randint(1, nmax)
+        if r.random() < 0.7:
+            m = n
+        P = g.pattern(m, n, r.choice(["dense", "sparse", "sparse", "diag+", "arrow", "band", "block", "zerodiag"]))
+        if r.random() < 0.2 and m > 1:
+            z = r.randrange(m); P = {k for k in P if k[0] != z}
+        if r.random() < 0.2 and n > 1:
+            z = r.randrange(n); P = {k for k in P if k[1] != z}
+        if r.random() < 0.15:
+            P |= {(r.randrange(m), j) for j in range(n)}          # a dense row
+        pats.append((m, n, P))
+    for i, (m, n, P) in enumerate(pats):
+        if not P:
+            P = set()
+        A = {k: (float(r.choice([1, 2, -1, 3])), 0.0) for k in P}
+        A2 = {k: (float(r.choice([5, -7, 0.5])), 0.0) for k in P}
+        lines = g.mat_lines(A, m, n, "NC", False)
+        methods = [NATURAL, MMD_ATA, COLAMD, MY_PERMC] + ([MMD_AT_PLUS_A] if m == n else [])
+        lines += ["call ata"] + (["call aplusat"] if m == n else [])
+        for meth in (methods if exhaustive3 or r.random() < 0.3 else r.sample(methods, 2)):
+            sym = 1 if (m == n and r.random() < 0.3) else 0
+            lines += opt_lines({"default": 0, "Sym": sym, "Fact": 0})
+            if meth == MY_PERMC:
+                p = list(range(n)); r.shuffle(p)
+                lines.append("permc " + " ".join(map(str, p)))
+            lines.append("call order %d" % meth)
+            # the same pattern with other values: the ordering must not change
+            lines.append("newvals " + g.mat_lines(A2, m, n, "NC", False)[3])
+            if meth == MY_PERMC:
+                lines.append("permc " + " ".join(map(str, p)))
+            lines.append("call order %d" % meth)
+            if r.random() < 0.3:        # reuse: ordering and tree are inputs
+                lines += opt_lines({"Fact": r.choice([1, 2])}) + ["call order %d" % meth]
+            lines.append("newvals " + g.mat_lines(A, m, n, "NC", False)[3])
+        lines += ["destroy all", "ledger"]
+        lst.append({"id": "%s-order%s-%05d-d" % (prop, "3x3" if i < 512 and exhaustive3 else "", i), "lines": lines, "n": n})
+    return {"d": lst}
+
+
+# ----------------------------------------------------------------------------- C14
+def vec_line(cmd, vals, inc, cplx):
+    return "%s %d %d " % (cmd, len(vals), inc) + " ".join(hx(v[0]) + ((" " + hx(v[1])) if cplx else "") for v in vals)
+
+
+def small_vec(g, n, cplx):
+    return [(float(g.r.choice([0, 1, -1, 2, -2, 3, 0.5])), float(g.r.choice([0, 0, 1, -1])) if cplx else 0.0) for _ in range(n)]
+
+
+def fam_kernels(g, prop, count, types):
+    """factor pairs produced by ?gstrf on exact-domain matrices (singleton and multi-column supernodes through the
+    tuning seam), then sp_?trsv for every flag combination and spelling, ?gstrs for nrhs 1..4 with ldb > n;
+    rectangular matrices for sp_?gemv / sp_?gemm with all alpha / beta, strides, poisoned padding"""
+    out = {}
+    for ty, k in split_types(count, types).items():
+        cplx = is_cplx(ty)
+        lst = []
+        for i in range(k):
+            r = g.r
+            n = r.randint(1, 5)
+            A = g.lu_product(n, cplx)
+            tune = g.tune(); tune[1] = r.choice([1, 1, 2, 4]); tune[2] = max(tune[1], r.choice([1, 2, 5]))
+            lines = ["tune " + " ".join(map(str, tune))] + g.mat_lines(A, n, n, "NC", cplx) + opt_lines({"default": 0, "ColPerm": r.choice([NATURAL, COLAMD, MMD_ATA])}) + ["call gstrf", "requireok"]
+            combos = [(u, t, d) for u in "LU" for t in "NTC" for d in "UN"]
+            for (u, t, d) in r.sample(combos, 5):
+                if r.random() < 0.25:       # the documented lower-case spellings
+                    u, t, d = u.lower(), t.lower(), d.lower()
+                lines += [vec_line("vecx", small_vec(g, n, cplx), 1, cplx), "call trsv %s %s %s" % (u, t, d)]
+            for _ in range(2):
+                nrhs = r.randint(1, 4); ldb = n + r.choice([0, 1, 3])
+                B = [small_vec(g, n, cplx) for _ in range(nrhs)]
+                lines += g.rhs_lines(B, n, nrhs, ldb, cplx) + ["call gstrs %d" % r.choice([0, 1, 2])]
+            # products with a rectangular matrix (second context)
+            m2, n2 = r.randint(1, 5), r.randint(1, 5)
+            A2, _ = g.matrix(m2, n2, cplx, style=r.choice(["small", "pow2"]), nonsingular_pattern=False)
+            lines += ["use 1"] + g.mat_lines(A2, m2, n2, "NC", cplx)
+            for _ in range(4):
+                t = r.choice(["N", "N", "T", "C", "n", "t", "c"])
+                notr = t in "Nn"
+                lenx, leny = (n2, m2) if notr else (m2, n2)
+                incx = r.choice([1, 2, -1]) if notr else 1
+                incy = 1 if notr else r.choice([1, 2, -1])
+                al = (float(r.choice([0, 1, -1, 2, 0.5])), float(r.choice([0, 0, 1])) if cplx else 0.0)
+                be = (float(r.choice([0, 1, -1, 2, 0.5])), float(r.choice([0, 0, -1])) if cplx else 0.0)
+                y = small_vec(g, leny, cplx)
+                if be == (0.0, 0.0) and r.random() < 0.5:
+                    y = [(float("nan"), float("nan"))] * leny        # beta = 0: y need not be set on input
+                # negative increments: the vector is traversed backwards (BLAS convention): keep the harness simple, use |inc|
+                lines += [vec_line("vecx", small_vec(g, lenx, cplx), abs(incx), cplx), vec_line("vecy", y, abs(incy), cplx)]
+                lines.append("call gemv %s %s %s" % (t, hx(al[0]) + ((" " + hx(al[1])) if cplx else ""), hx(be[0]) + ((" " + hx(be[1])) if cplx else "")))
+            for _ in range(2):
+                t = r.choice(["N", "T", "C"])
+                notr = t == "N"
+                rowsB, rowsC = (n2, m2) if notr else (m2, n2)
+                nb = r.randint(1, 3); ldb = rowsB + r.choice([0, 2]); ldc = rowsC + r.choice([0, 1])
+                Bv = [v for _ in range(nb) for v in (small_vec(g, rowsB, cplx) + [(9.0, 9.0 if cplx else 0.0)] * (ldb - rowsB))]
+                Cv = [v for _ in range(nb) for v in (small_vec(g, rowsC, cplx) + [(7.0, 0.0)] * (ldc - rowsC))]
+                al = (float(r.choice([1, -1, 2, 0.5])), 0.0)
+                be = (float(r.choice([0, 1, -1, 2])), 0.0)
+                lines += [vec_line("vecx", Bv, 1, cplx), vec_line("vecc", Cv, 1, cplx)]
+                lines.append("call gemm %s %d %d %d %s %s" % (t, nb, ldb, ldc, hx(al[0]) + ((" " + hx(al[1])) if cplx else ""), hx(be[0]) + ((" " + hx(be[1])) if cplx else "")))
+            lines += ["use 0", "destroy all", "use 1", "destroy all", "ledger"]
+            lst.append({"id": "%s-kernels-%05d-%s" % (prop, i, ty), "lines": lines, "n": n})
+        out[ty] = lst
+    return out
